@@ -38,6 +38,11 @@
 #include <sys/types.h>
 #include <sys/stat.h>
 #include <sys/mman.h>
+#include <limits.h>
+
+/** Maximum value of an @c off_t. */
+#define OFF_MAX	\
+	((off_t) ((((uintmax_t)1) << (sizeof(off_t) * CHAR_BIT - 1)) - 1))
 
 /** Destructor for mmapped cache entries.
  * @param ce  Cache entry.
@@ -296,6 +301,10 @@ fcache_pread(struct fcache *fc, void *buf, size_t len,
 	struct fcache_entry fce;
 	kdump_status ret;
 
+	/* The end position must be representable as a file offset. */
+	if (len && (pos < 0 || len - 1 > (size_t)(OFF_MAX - pos)))
+		return KDUMP_ERR_NODATA;
+
 	while (len) {
 		size_t partlen;
 
@@ -381,6 +390,10 @@ fcache_get_chunk(struct fcache *fc, struct fcache_chunk *fch,
 		fch->nent = 0;
 		return KDUMP_OK;
 	}
+
+	/* The end position must be representable as a file offset. */
+	if (pos < 0 || len - 1 > (size_t)(OFF_MAX - pos))
+		return KDUMP_ERR_NODATA;
 
 	first = pos & ~(off_t)(fc->pgsz - 1);
 	last = (pos + len - 1) & ~(off_t)(fc->pgsz - 1);
